@@ -74,6 +74,58 @@ theorem ptrFields_upd_inside {m : Nat → Nat} {base q k v : Nat} {bs : List Nat
   unfold IsBlock at *
   refine ⟨upd_other _ _ ?_, upd_other _ _ ?_, upd_other _ _ ?_⟩ <;> omega
 
+theorem TopoSorted.congr {m m' : Nat → Nat} : ∀ {ord : List Nat},
+    (∀ b, b ∈ ord → ptrSlots m' b = ptrSlots m b) → TopoSorted m ord → TopoSorted m' ord
+  | [], _, _ => trivial
+  | b :: rest, hs, h => by
+    refine ⟨?_, TopoSorted.congr (fun x hx => hs x (by simp [hx])) h.2⟩
+    rw [hs b (by simp)]; exact h.1
+
+/-- Removing a block that no earlier block points to keeps the list sorted. -/
+theorem TopoSorted.remove {m : Nat → Nat} {p : Nat} : ∀ {o1 o2 : List Nat},
+    TopoSorted m (o1 ++ p :: o2) → (∀ b, b ∈ o1 → p ∉ ptrSlots m b) → TopoSorted m (o1 ++ o2)
+  | [], _, h, _ => h.2
+  | b :: o1, o2, h, hn => by
+    have h' : TopoSorted m (b :: (o1 ++ p :: o2)) := h
+    show TopoSorted m (b :: (o1 ++ o2))
+    refine ⟨?_, TopoSorted.remove h'.2 (fun x hx => hn x (by simp [hx]))⟩
+    intro q hq
+    rcases h'.1 q hq with h0 | hl
+    · exact Or.inl h0
+    · right
+      have hqp : q ≠ p := by rintro rfl; exact hn b (by simp) hq
+      simp only [List.mem_append, List.mem_cons] at hl ⊢
+      rcases hl with hl | hl | hl
+      · exact Or.inl hl
+      · exact absurd hl hqp
+      · exact Or.inr hl
+
+theorem ptrSlots_upd_header {m : Nat → Nat} {base p v b : Nat}
+    (hp : IsBlock base p) (hb : IsBlock base b) : ptrSlots (upd m p v) b = ptrSlots m b := by
+  unfold IsBlock at *
+  simp only [ptrSlots]
+  rw [upd_other _ _ (by omega), upd_other _ _ (by omega), upd_other _ _ (by omega)]
+
+theorem ptrSlots_sub_ptrFields {m : Nat → Nat} {b : Nat} {bs : List Nat} (hb : b ∈ bs) :
+    ∀ q, q ∈ ptrSlots m b → q ∈ ptrFields m bs := by
+  intro q hq
+  obtain ⟨l1, l2, rfl⟩ := List.append_of_mem hb
+  simp only [ptrFields_append, ptrFields_cons, List.mem_append]
+  exact Or.inr (Or.inl hq)
+
+/-- Removing `p` from a topologically sorted permutation of `l1 ++ p :: l2`. -/
+theorem acyclic_remove {m : Nat → Nat} {p : Nat} {l1 l2 : List Nat}
+    (h : ∃ ord, ord.Perm (l1 ++ p :: l2) ∧ TopoSorted m ord)
+    (hn : ∀ b, b ∈ l1 ++ p :: l2 → p ∉ ptrSlots m b) :
+    ∃ ord, ord.Perm (l1 ++ l2) ∧ TopoSorted m ord := by
+  obtain ⟨ord, hperm, hts⟩ := h
+  have hp : p ∈ ord := hperm.mem_iff.mpr (by simp)
+  obtain ⟨o1, o2, rfl⟩ := List.append_of_mem hp
+  refine ⟨o1 ++ o2, ?_, hts.remove (fun b hb => hn b (hperm.mem_iff.mp (by simp [hb])))⟩
+  have h1 : (p :: (o1 ++ o2)).Perm (p :: (l1 ++ l2)) :=
+    (List.perm_middle.symm.trans hperm).trans List.perm_middle
+  exact h1.cons_inv
+
 theorem nodup4_iff {a b c d : List Nat} : (a ++ b ++ c ++ d).Nodup ↔
     a.Nodup ∧ b.Nodup ∧ c.Nodup ∧ d.Nodup ∧ (∀ x, x ∈ a → x ∉ b ∧ x ∉ c ∧ x ∉ d) ∧
     (∀ x, x ∈ b → x ∉ c ∧ x ∉ d) ∧ (∀ x, x ∈ c → x ∉ d) := by
